@@ -187,46 +187,79 @@ def writer_keys(f: FuncInfo, var: Optional[str]) -> tuple[set[str], bool, dict[s
 def r1_keys(ctx) -> None:
     r, prog = ctx.r, ctx.prog
     r.rule("C06.R1", "reader/writer key agreement: for each (from_dict, to_dict) pair the constant document keys the reader consumes equal the keys the writer can emit; an optional numeric item is guarded by `is not None`, not by truthiness")
+    from . import c06_keys as K
+    BASE = "sigma.rule.base.SigmaRuleBase"
+    CLASS_PAIRS = [  # class, reader method, writer keys that belong to a nested writer the reader consumes itself
+        (BASE, "from_dict_common_params", None),
+        ("sigma.rule.rule.SigmaRule", "from_dict", None),
+        ("sigma.rule.logsource.SigmaLogSource", "from_dict", None),
+        ("sigma.rule.detection.SigmaDetections", "from_dict", None),
+        ("sigma.filters.SigmaGlobalFilter", "from_dict", "sigma.rule.detection.SigmaDetections"),
+        ("sigma.filters.SigmaFilter", "from_dict", None),
+        ("sigma.correlations.SigmaCorrelationRule", "from_dict", None),
+        ("sigma.correlations.SigmaCorrelationCondition", "from_dict", None),
+    ]
+    static_pairs: dict[str, list] = {}
     for pair in PAIRS:
-        rq, rvar, wq, wvar = pair[:4]
-        rf, wf = prog.func(rq), prog.func(wq)
-        rk, rdyn = reader_keys(rf, rvar)
-        wk, wdyn, guards = writer_keys(wf, wvar)
-        if len(pair) > 4:
-            bk, bd, _ = writer_keys(prog.func(pair[4][0]), pair[4][1])
-            wk, wdyn = wk | bk, wdyn or bd
-        if not rk and not rdyn:
-            raise AnalysisError(f"{rq}: no key reads of {rvar!r} found")
-        if not wk and not wdyn:
-            raise AnalysisError(f"{wq}: no key writes of {wvar!r} found")
-        where = f"{wq.rsplit('.', 2)[-2]}.to_dict"
-        for k in sorted(rk - wk):
-            r.violation("C06.R1", wq, f"key '{k}' read by {rq.rsplit('.', 2)[-2]}.{rf.name}, never written",
-                        f"the reader consumes '{k}' but the writer cannot emit it: the item is lost when the written form is loaded again (a rule condition or pipeline that looks at it sees another rule)", wf.loc)
-        for k in sorted(wk - rk):
-            r.violation("C06.R1", wq, f"key '{k}' written, not read by {rq.rsplit('.', 2)[-2]}.{rf.name}",
-                        f"the writer emits '{k}' which the reader does not consume: it is ignored or re-read as a custom attribute, so the reloaded object differs", wf.loc)
-        if not (rk ^ wk):
-            r.ok("C06.R1", wq, f"{where}: keys {sorted(wk)}{' + dynamic' if wdyn else ''} = keys read by {rf.name}({rvar})", wf.loc)
-        for k, g in sorted(guards.items()):
-            t = g.test  # type: ignore[attr-defined]
-            if isinstance(t, ast.Attribute):
-                ty = ctx.types.type_str(wf.module, t) or ""
-                if any(x in ty for x in ("int", "float")):
-                    r.violation("C06.R1", wq, f"if {unparse(t)}: [{k}]", f"truthiness guard on a numeric item (type {ty}): the legitimate value 0 is dropped from the written form and reloads as absent", f"{wf.module.relpath}:{g.lineno}")
-                else:
-                    r.ok("C06.R1", wq, f"'{k}' guarded by truthiness of {unparse(t)} (type {ty}): empty/false equals the default", f"{wf.module.relpath}:{g.lineno}")
-            else:
-                r.ok("C06.R1", wq, f"'{k}' guarded by {short(t, 60)}", f"{wf.module.relpath}:{g.lineno}")
+        static_pairs.setdefault(pair[0].rsplit(".", 1)[0], []).append(pair)
+    base_r: set[str] = set()
+    base_w: set[str] = set()
+    for cq, rm, also in CLASS_PAIRS:
+        rf = prog.lookup_method(cq, rm)
+        wf = prog.lookup_method(cq, "to_dict")
+        if rf is None or wf is None:
+            raise AnalysisError(f"anchor vanished: {cq}.{rm} / to_dict")
+        how_r = how_w = "interpreted"
+        lost: list[str] = []
+        try:
+            rk_all, iterated, _notes = K.reader_keys(ctx, cq, rm)
+        except AnalysisError as ex:
+            how_r, rk_all = f"extracted from the syntax tree (interpretation: {str(ex)[:80]})", {}
+            for i, pair in enumerate(static_pairs.get(cq, [])):
+                k_, dyn_ = reader_keys(prog.func(pair[0]), pair[1])
+                if not k_ and not dyn_:
+                    raise AnalysisError(f"{pair[0]}: no key reads of {pair[1]!r} found")
+                rk_all[() if i == 0 else ("correlation",)] = k_
+        try:
+            wk_all, lost = K.writer_keys(ctx, cq)
+            if also:
+                wk_all[()] = wk_all.get((), set()) | K.writer_keys(ctx, also)[0].get((), set())
+        except AnalysisError as ex:
+            how_w, wk_all = f"extracted from the syntax tree (interpretation: {str(ex)[:80]})", {}
+            for i, pair in enumerate(static_pairs.get(cq, [])):
+                k_, dyn_, _g = writer_keys(prog.func(pair[2]), pair[3])
+                if len(pair) > 4:
+                    bk, bd, _ = writer_keys(prog.func(pair[4][0]), pair[4][1])
+                    k_, dyn_ = k_ | bk, dyn_ or bd
+                if not k_ and not dyn_:
+                    raise AnalysisError(f"{pair[2]}: no key writes of {pair[3]!r} found")
+                wk_all[() if i == 0 else ("correlation",)] = k_
+        if cq == BASE:
+            base_r, base_w = set(rk_all.get((), set())), set(wk_all.get((), set()))
+        for path in sorted(set(rk_all) | set(wk_all)):
+            if path not in rk_all or path not in wk_all:
+                continue  # a section only one side opens itself is judged at the pair of its own class
+            rk, wk = set(rk_all[path]), set(wk_all[path])
+            if cq != BASE and not path and prog.is_subclass(cq, BASE):
+                rk, wk = rk - base_r - base_w, wk - base_w - base_r  # the common keys are judged at the base pair
+            wq = wf.qual if not path or cq != "sigma.correlations.SigmaCorrelationRule" else wf.qual
+            rname = f"{rf.qual.rsplit('.', 2)[-2]}.{rf.name}"
+            sect = f" in the section {'/'.join(path)}" if path else ""
+            for k in sorted(rk - wk):
+                r.violation("C06.R1", wq, f"key '{k}' read by {rname}, never written",
+                            f"the reader consumes '{k}'{sect} but the writer cannot emit it: the item is lost when the written form is loaded again (a rule condition or pipeline that looks at it sees another rule)", wf.loc)
+            for k in sorted(wk - rk):
+                r.violation("C06.R1", wq, f"key '{k}' written, not read by {rname}",
+                            f"the writer emits '{k}'{sect} which the reader does not consume: it is ignored or re-read as a custom attribute, so the reloaded object differs", wf.loc)
+            if not (rk ^ wk):
+                r.ok("C06.R1", wq, f"{cq.rsplit('.', 1)[-1]}.to_dict{sect}: keys {sorted(wk)} (writer {how_w}) = keys asked for by {rf.name} (reader {how_r})", wf.loc)
+        for l_ in lost:
+            r.violation("C06.R1", wf.qual, f"if <numeric attribute>: … — {l_}", "truthiness guard on a numeric item: the legitimate value 0 is dropped from the written form and reloads as absent", wf.loc)
+        if not lost and how_w == "interpreted":
+            r.ok("C06.R1", wf.qual, f"{cq.rsplit('.', 1)[-1]}.to_dict: no key disappears when a numeric attribute is 0", wf.loc)
     # dates: the writer emits date.isoformat(); every such text must be accepted by the reader's patterns
     import re as _re
     gd = prog.func("sigma.rule.base.SigmaRuleBase.from_dict_common_params")
-    pats = []
-    for n in ast.walk(gd.node):
-        if isinstance(n, ast.Assign) and unparse(n.targets[0]) == "accepted_regexps" and isinstance(n.value, ast.Tuple):
-            pats = [e.value for e in n.value.elts if isinstance(e, ast.Constant) and isinstance(e.value, str)]
-    if not pats:
-        raise AnalysisError("date patterns of the reader not found")
     wf_ = prog.func("sigma.rule.base.SigmaRuleBase.to_dict")
     # the writer interpreted (sa.tabulate, Proxy) on a stand-in rule whose date / modified hold a date or a timestamp
     import datetime as _dt
@@ -247,12 +280,25 @@ def r1_keys(ctx) -> None:
             r.ok("C06.R1", wf_.qual, f"{attr}: a timestamp is written as its date (isoformat of a date is YYYY-MM-DD) — interpreted on a date and two timestamps", wf_.loc)
         else:
             r.violation("C06.R1", wf_.qual, f"d['{attr}'] = self.{attr}.isoformat(): {outs}", f"the loader accepts a YAML timestamp as {attr}, and isoformat() of a datetime is YYYY-MM-DDTHH:MM:SS — none of the reader's date patterns: the written rule cannot be loaded again", wf_.loc)
-    rejected = [f"{y:04d}-{m_:02d}-{d_:02d}" for y in (1000, 1999, 2024, 3999) for m_ in range(1, 13) for d_ in range(1, 32)
-                if not any(_re.fullmatch(p_, f"{y:04d}-{m_:02d}-{d_:02d}") for p_ in pats)]
+    # the reader interpreted (sa.tabulate) on documents whose date is the text the writer emits, for every date of four years
+    rejected, n_dates = [], 0
+    for attr in ("date", "modified"):
+        for y in (1000, 1999, 2024, 3999):
+            for m_ in range(1, 13):
+                for d_ in range(1, 32):
+                    try:
+                        want_d = _dt.date(y, m_, d_)
+                    except ValueError:
+                        continue
+                    n_dates += 1
+                    out_ = K.reader_result(ctx, BASE, "from_dict_common_params", {"title": "t", attr: want_d.isoformat()})
+                    got_d = out_[0].get(attr) if isinstance(out_, tuple) and out_ and isinstance(out_[0], dict) else out_
+                    if got_d != want_d:
+                        rejected.append(f"{attr}: {want_d.isoformat()} → {got_d!r}")
     if rejected:
-        r.violation("C06.R1", gd.qual, f"accepted_regexps reject {rejected[0]}", f"the writer emits dates as date.isoformat(); {len(rejected)} of the ISO dates with month 01..12 and day 01..31 (first: {rejected[0]}) match none of the reader's patterns {pats}: a rule with such a date cannot be loaded from its own written form", gd.loc)
+        r.violation("C06.R1", gd.qual, f"accepted_regexps reject {rejected[0]}", f"the writer emits dates as date.isoformat(); {len(rejected)} of {n_dates} such texts (first: {rejected[0]}) are not read back as the same date: a rule with such a date cannot be loaded from its own written form", gd.loc)
     else:
-        r.ok("C06.R1", gd.qual, f"every ISO date (4 years x 12 months x 31 days) the writer can emit matches one of the reader's {len(pats)} date patterns", gd.loc)
+        r.ok("C06.R1", gd.qual, f"every ISO date of four years ({n_dates} documents, date and modified) the writer can emit is read back as the same date (reader interpreted)", gd.loc)
     r.floor("C06.R1", 15)
 
 
@@ -491,8 +537,12 @@ def r4_live_state(ctx) -> None:
                     "sigma.correlations.SigmaCorrelationFieldAliases", "sigma.correlations.SigmaCorrelationTimespan"]
     serial = {c for root in serial_roots for c in prog.subclasses(root)}
     read: set[tuple[str, str]] = set()
-    for q, wf in prog.funcs.items():
-        if wf.name not in ("to_dict", "to_plain") or not wf.module.name.startswith(WRITER_MODULES):
+    roots = [q for q, wf in prog.funcs.items() if wf.name in ("to_dict", "to_plain") and wf.module.name.startswith(WRITER_MODULES)]
+    # the writers and the helpers they call (a helper may read the attribute for them)
+    writer_funcs = sorted(q for q in ctx.cg.reachable(roots) if q in prog.funcs and prog.funcs[q].module.name.startswith(WRITER_MODULES))
+    for q in writer_funcs:
+        wf = prog.funcs[q]
+        if wf.name not in ("to_dict", "to_plain") and not wf.name.startswith("_"):
             continue
         loop_consts: dict[str, list[str]] = {}
         for n in ast.walk(wf.node):
